@@ -243,6 +243,7 @@ type scen struct {
 	reqCnt atomic.Int64
 	ports  map[string]int
 
+	names  []string
 	reqs   []string
 	phases []string
 	works  []*workRec
@@ -393,7 +394,7 @@ func (sc *scen) opWork() {
 }
 
 func (sc *scen) opUser() {
-	proxy := []string{"pa", "pb"}[sc.g.Intn(2)]
+	proxy := sc.names[sc.g.Intn(2)]
 	idx := len(sc.users)
 	ip := fmt.Sprintf("127.0.11.%d", 100+(sc.w.idx*7+idx)%100)
 	d := net.Dialer{LocalAddr: &net.TCPAddr{IP: net.ParseIP(ip)}, Timeout: 2 * time.Second}
@@ -633,13 +634,21 @@ func (sc *scen) cleanup() {
 	if sc.peer != nil {
 		sc.peer.Close()
 	}
+	if sc.ctl != nil {
+		// the next scenario of this worker must not overlap this session's teardown
+		select {
+		case <-sc.ctl.VerifC11Done():
+		case <-time.After(3 * time.Second):
+		}
+	}
 }
 
 var poolCounts = []int{-100, -3, 0, 0, 1, 1, 2, 3, 4, 5, 8, 50}
 
 // runScenario returns the Coq case (or "" if the scenario could not be set up).
-func (w *worker) runScenario(g *hx.Gen, kind int) (*scen, string) {
+func (w *worker) runScenario(g *hx.Gen, kind int, caseNo int) (*scen, string) {
 	sc := &scen{g: g, w: w, ports: map[string]int{}}
+	sc.names = []string{fmt.Sprintf("pa%d", caseNo), fmt.Sprintf("pb%d", caseNo)}
 	sc.cpc = poolCounts[g.Intn(len(poolCounts))]
 	p, resp, err := w.srv.Login(hx.LoginOpts{PoolCount: sc.cpc})
 	if err != nil || p == nil {
@@ -647,7 +656,7 @@ func (w *worker) runScenario(g *hx.Gen, kind int) (*scen, string) {
 	}
 	sc.peer, sc.runID = p, p.RunID
 	defer sc.cleanup()
-	for _, name := range []string{"pa", "pb"} {
+	for _, name := range sc.names {
 		port := hx.FreePort(w.addr)
 		r, err := p.NewProxy(&msg.NewProxy{ProxyName: name, ProxyType: "tcp", RemotePort: port})
 		if err != nil || r.Error != "" {
@@ -829,10 +838,11 @@ func retryCloseCheck(w *worker, g *hx.Gen) []map[string]any {
 	sc.peer, sc.runID = p, p.RunID
 	defer sc.cleanup()
 	port := hx.FreePort(w.addr)
-	if r, err := p.NewProxy(&msg.NewProxy{ProxyName: "pa", ProxyType: "tcp", RemotePort: port}); err != nil || r.Error != "" {
+	if r, err := p.NewProxy(&msg.NewProxy{ProxyName: "pr", ProxyType: "tcp", RemotePort: port}); err != nil || r.Error != "" {
 		return []map[string]any{{"key": "setup", "what": "retryCloseCheck proxy failed", "case": "retry"}}
 	}
-	sc.ports["pa"], sc.ports["pb"] = port, port
+	sc.names = []string{"pr", "pr"}
+	sc.ports["pr"] = port
 	sc.ctl = w.srv.Svc.VerifC11Control(sc.runID)
 	go func() {
 		for {
@@ -906,7 +916,7 @@ func runPool(cfg *hx.RunCfg) error {
 				}
 				g := hx.NewGen(cfg.Seed*1000003 + int64(i))
 				kind := []int{0, 0, 1, 1, 2, 3, 3, 4, 4, 5}[i%10]
-				sc, text := w.runScenario(g, kind)
+				sc, text := w.runScenario(g, kind, i)
 				out[i] = res{i, sc, text}
 			}
 		}(w)
